@@ -83,14 +83,19 @@ package tcp
 //@ func (*conn).CloseWrite
 //@   props C09
 //@   requires c != nil && c.c != nil
-//@   assigns nothing
+//@   assigns connClosed
 //@   ensures nopanic
+//@   // whatever can be half-closed is half-closed, not closed: plain TCP connections and TLS connections alike (TLS-terminating
+//@   // tcp listeners hand the proxies a *tls.Conn)
+//@   ensures typeIs(c.c, *net.TCPConn) || typeIs(c.c, *tls.Conn) ==> connClosed[c.c] == old(connClosed[c.c])
 //@
 //@ func closeWrite
 //@   props C09
 //@   requires c != nil
-//@   assigns nothing
+//@   assigns connClosed
 //@   ensures nopanic
+//@   // ending a direction half-closes whatever can be half-closed
+//@   ensures typeIs(c, *net.TCPConn) || typeIs(c, *tls.Conn) ==> connClosed[c] == old(connClosed[c])
 //@
 //@ // a tunnel direction must read from the reader that holds everything consumed from the connection so far: if a
 //@ // buffered reader was put over src and has read from it, bytes may sit in its buffer and reading src directly skips them
